@@ -387,7 +387,14 @@ func (w *world) judge(pc *probeCall, s *scan, why string) {
 			}
 		}
 		if sig != "" {
-			w.violation(sig, map[string]any{"mode": mode, "round": why, "address": pc.C.Addr.Hex(), "why_probed": pc.C.Why, "method": pc.Sel, "calldata": hex.EncodeToString(pc.Data),
+			how := ""
+			switch pc.C.Why {
+			case "disabled-on-branch":
+				how = "ctx := branch of the committed state; CPCKeeper.SetCustomPrecompiledContractMeta(ctx, stored metadata with Disabled=true, newDeployment=false) (the call an upgrade handler would make); EvmKeeper.EthCall(ctx, ...) on the same branch; the raw store scan of the branch shows disabled=true"
+			case "disabled-on-root-store":
+				how = "between two blocks CPCKeeper.SetCustomPrecompiledContractMeta(uncached root context, stored metadata with Disabled=true, false) (what a committed upgrade-handler write leaves behind); then the probe transaction was simulated, checked, delivered in the next block and the call repeated through EthCall; the registry scan of the committed state shows disabled=true"
+			}
+			w.violation(sig, map[string]any{"how_disabled": how, "mode": mode, "round": why, "address": pc.C.Addr.Hex(), "why_probed": pc.C.Why, "method": pc.Sel, "calldata": hex.EncodeToString(pc.Data),
 				"expected": map[string]any{"target": pc.Exp.Target, "class": pc.Exp.Class, "return_data": hex.EncodeToString(pc.Exp.Data)},
 				"observed": ob, "all_modes": pc.Obs, "registry": s.summary()})
 		}
